@@ -387,7 +387,7 @@ def run(repo, rep, tier):
     prims, _ = primitives(repo)
     r1 = rep.rule("R12.1", "no fallible operation after the first own-state store in fill (typestate on the CFG)", floor=19)
     r2 = rep.rule("R12.2", "single-path containers fill at most one child on every path", floor=6)
-    r3 = rep.rule("R12.3", "(informational) position of the repository's rollback marker comment relative to the first own-state store", floor=15)
+    r3 = rep.rule("R12.3", "(informational) position of the repository's rollback marker comment relative to the first own-state store")   # no floor: comments are not behaviour
     r4 = rep.rule("R12.4", "conversion helpers that fill relies on to reject a wrong-typed value let the conversion error escape", floor=1)
     validators_raise(repo, rep, r4, prims)
     for c in prims:
